@@ -39,9 +39,11 @@ def run(ck):
     ck.theorems()
     rng = ck.rng
     # rect / ortho / tet / hcp have several inequivalent exchange (omega2) classes
-    names = ["rect", "square", "honeycomb", "ortho", "sq2w", "tria", "rect-polar2d", "sc"] + ([] if ck.quick else ["hcp", "fcc", "bcc", "b2", "re3", "tet", "polar", "diamond", "hcp-nonideal"])
+    # oblique1 / mono / tric: point groups with an invariant antisymmetric tensor (the two algorithms must agree on the
+    # antisymmetric part of Lsv as well; fixed defect 3c84ed4)
+    names = ["rect", "oblique1", "square", "mono", "honeycomb", "ortho", "sq2w", "tria", "rect-polar2d", "sc"] + ([] if ck.quick else ["tric", "hcp", "fcc", "bcc", "b2", "re3", "tet", "polar", "diamond", "hcp-nonideal"])
     ncase = 0
-    for rep in range(ck.n(6, 17)):
+    for rep in range(ck.n(8, 20)):
         nm = names[rep % len(names)]
         crys, chem = gen.named(nm)
         net = gen.percolating_network(crys, chem, rng, maxshell=1, maxjumps=30)
@@ -78,14 +80,22 @@ def run(ck):
             doc["Lij_default"] = [x.tolist() for x in L]
             if not all(np.all(np.isfinite(x)) for x in L):
                 ck.violation("default algorithm returns non-finite tensors at omega2 scale %g" % f, doc, key=(K_MULTI if multi and f >= 1e6 else "c08-finite")); continue
-            sy = max(tcommon.sym_err(x) / max(np.abs(x).max(), scale) for x in L)
-            if sy > 1e-8: ck.violation("default algorithm returns non-symmetric tensors (%.3g) at omega2 scale %g" % (sy, f), doc, key="c08-symmetric")
+            axial = tcommon.axial_dim(crys) > 0     # Lsv is not symmetric there (C03 known finding c03-Lsv-asym-axialgroup)
+            sy = max(tcommon.sym_err(x) / max(np.abs(x).max(), scale) for k, x in enumerate(L) if not (axial and k == 2))
+            if sy > 1e-8 + 1e-15 * f * smax: ck.violation("default algorithm returns non-symmetric tensors (%.3g) at omega2 scale %g" % (sy, f), doc, key="c08-symmetric")
             if out.get("standard") is not None and out.get("large") is not None:
                 tol = 1e-14 * f * smax + 1e-9
                 ess = np.abs(out["standard"][1] - out["large"][1]).max() / scale
                 esv = max(np.abs(a - b).max() for a, b in zip(out["standard"][2:], out["large"][2:])) / scale
                 dd = dict(doc, standard=[x.tolist() for x in out["standard"]], large=[x.tolist() for x in out["large"]])
-                if multi:
+                if multi and f <= 1e3:
+                    # the known multi-Wyckoff loss of accuracy of the large algorithm grows like eps*f^2 (measured 1e-16*f^2);
+                    # at ordinary rates the two algorithms must agree - a disagreement here is NOT the known finding
+                    tolm = 1e-9 + 1e-15 * (f * smax) ** 2
+                    if max(ess, esv) > tolm:
+                        ck.violation("multi-Wyckoff crystal: standard and large-omega2 algorithms differ by %.3g at ordinary exchange scale %g (allowed %.3g)"
+                                     % (max(ess, esv), f, tolm), dd, key="c08-agree-multiwyckoff-ordinary")
+                elif multi:
                     if max(ess, esv) > tol:
                         ck.violation("multi-Wyckoff crystal: standard and large-omega2 algorithms differ by %.3g at scale %g" % (max(ess, esv), f), dd, key=K_MULTI)
                 else:
